@@ -246,6 +246,49 @@ impl World {
         Ok(())
     }
 
+    /// The operator removes the parent of "ca" and adds it again: the
+    /// resource class of "ca" is dropped and a new one (under the next
+    /// name) comes into being. The children of "ca" keep their records.
+    pub fn renumber_class(&self) -> Result<(), String> {
+        use krill::api::admin::ParentCaReq;
+        let env = &self.env;
+        let actor = aworld::actor(env);
+        let cam = env.krill.ca_manager();
+        let ca = aworld::ca_handle(CA);
+        let ta = aworld::ca_handle("ta");
+        cam.ca_parent_remove(
+            ca.clone(), ta.convert(), &actor, &env.slow
+        ).map_err(|e| format!("parent remove: {e}"))?;
+        let response = cam.ca_parent_response(
+            &ta, ca.convert(), env.krill.service_uri()
+        ).map_err(|e| format!("parent response: {e}"))?;
+        cam.ca_parent_add_or_update(
+            ca.clone(), ParentCaReq { handle: ta.convert(), response },
+            &actor, &env.krill,
+        ).map_err(|e| format!("parent add: {e}"))?;
+        for _ in 0..2 {
+            aworld::sync_parent(env, &ca, &ta)?;
+        }
+        cam.sync_ta_proxy_signer_if_possible(&env.krill)
+            .map_err(|e| format!("ta sync: {e}"))?;
+        for _ in 0..2 {
+            aworld::sync_parent(env, &ca, &ta)?;
+        }
+        Ok(())
+    }
+
+    /// The name of the resource class the child is entitled in right now.
+    pub fn current_class(&self) -> Option<String> {
+        let ca = self.env.krill.ca_manager().get_ca(
+            &aworld::ca_handle(CA)
+        ).ok()?;
+        let list = ca.list(
+            &ChildHandle::from_str(CHILD).unwrap(),
+            &self.env.krill.config().issuance_timing,
+        ).ok()?;
+        list.classes().first().map(|c| c.class_name().to_string())
+    }
+
     pub fn class(&self) -> ResourceClassName {
         ResourceClassName::from(self.class_name.as_str())
     }
